@@ -705,7 +705,9 @@ class Engine:
             else:
                 yield ("raise", Exc(AttributeError), st)
         elif isinstance(o, Ref):
-            if attr == "_refs":
+            if attr == "__class__" and o.cls is not None:
+                yield ("val", o.cls, st)
+            elif attr == "_refs":
                 yield ("val", RefsDict(o), st)
             elif attr in st.zh:
                 v = z3.Select(st.zh[attr], o.t)
@@ -748,6 +750,8 @@ class Engine:
             else:
                 yield ("raise", Exc(AttributeError), st)
         elif isinstance(o, (SList, LRef)):
+            yield ("val", StrMethod(o, attr), st)
+        elif isinstance(o, RefsDict) and attr == "get":
             yield ("val", StrMethod(o, attr), st)
         elif o is None:
             yield ("raise", Exc(AttributeError), st)
